@@ -51,6 +51,16 @@ func (vLivenessTester) Reset()                                               {}
 var vRedisOnce sync.Once
 var vRedis *kit.FakeRedis
 
+// vNewStationKeys builds a station that holds nKeys private keys (a key directory during rotation); clients obfuscate for
+// the key with index use.
+func vNewStationKeys(t testing.TB, name string, nKeys, use int) *vStation {
+	vStationKeys, vStationKeyUse = nKeys, use
+	defer func() { vStationKeys, vStationKeyUse = 1, 0 }()
+	return vNewStation(t, name)
+}
+
+var vStationKeys, vStationKeyUse = 1, 0
+
 func vNewStation(t testing.TB, name string) *vStation {
 	os.Setenv("PHANTOM_SUBNET_LOCATION", conjurepath.Root+"/pkg/station/lib/test/phantom_subnets.toml")
 	vRedisOnce.Do(func() {
@@ -77,7 +87,20 @@ func vNewStation(t testing.TB, name string) *vStation {
 		t.Fatal(err)
 	}
 	copy(s.pub[:], pub)
-	s.prefT, err = prefix.Default([][32]byte{s.priv})
+	privs := [][32]byte{s.priv}
+	for i := 1; i < vStationKeys; i++ {
+		var k [32]byte
+		rng.Read(k[:])
+		k[0] &= 248
+		k[31] &= 127
+		k[31] |= 64
+		privs = append(privs, k)
+	}
+	if vStationKeyUse > 0 && vStationKeyUse < len(privs) {
+		// the clients' key is not the first one of the station's list
+		privs[0], privs[vStationKeyUse] = privs[vStationKeyUse], privs[0]
+	}
+	s.prefT, err = prefix.Default(privs)
 	if err != nil {
 		t.Fatal(err)
 	}
